@@ -704,7 +704,9 @@ class TraitListObject(TraitList):
 
         if isinstance(key, slice):
             value = list(value)
-            if key.step is None or key.step == 1:
+            # Like list, accept any integer-like step (an object with an
+            # __index__ method): a step of 1 is not an extended slice.
+            if key.step is None or operator.index(key.step) == 1:
                 self._validate_length(len(self) - len(self[key]) + len(value))
             else:
                 # No length change possible, so no need to validate length. But
